@@ -72,14 +72,16 @@ def run_packages(ctx, pkgs, procs=8, timeout=3600):
     return res
 
 
-def observe_main(ev):
-    """Observable of a script's main: logs, return data, revert code."""
+def observe_main(ev, raw_log_values=True):
+    """Observable of a script's main: logs, return data, revert code.
+    raw_log_values=False: a `log` (register) receipt contributes only its presence -- hand-written asm may log
+    raw register contents such as memory addresses, which legitimately differ between build profiles."""
     logs, ret = [], []
     for r in ev.get("receipts", []):
         if r["t"] == "logdata":
             logs.append(r["data"])
         elif r["t"] == "log":
-            logs.append(r["ra"])
+            logs.append(r["ra"] if raw_log_values else [])
         elif r["t"] == "returndata":
             ret = r["data"]
         elif r["t"] == "return":
@@ -92,14 +94,14 @@ def observe_main(ev):
     return {"logs": logs, "out": "error:" + (ev.get("err") or ev.get("panic") or st["k"])[:80], "code": [], "ret": []}
 
 
-def observe(test_ev):
+def observe(test_ev, raw_log_values=True):
     """Project a Test event to the observable alphabet of SwaySem: logs (data bytes), out, code."""
     logs = []
     for r in test_ev["receipts"]:
         if r["t"] == "logdata":
             logs.append(r["data"])
         elif r["t"] == "log":
-            logs.append(r["ra"])
+            logs.append(r["ra"] if raw_log_values else [])
     st = test_ev["state"]
     if st["k"] == "revert":
         return {"logs": logs, "out": "revert", "code": st["v"]}
